@@ -27,6 +27,11 @@ type lockRig struct {
 	mRetI      int
 	mReq       *ref.Request // pending request of the model (the emulator's is cpu.Interrupt)
 	handlers   int          // bit 0: no RETN handler registered, bit 1: no RETI handler registered
+	// machine variation of the emulator side: 1/32 of the runs use the bundled 64 KiB DumbMemory (then final
+	// contents of the cells the model touched are compared instead of access logs)
+	useDumb bool
+	dumb    z80.DumbMemory
+	prev    z80.CPU
 	afterEI    bool         // previous Step executed EI
 	parked     bool         // previous Step executed HALT (CPU is parked on it)
 	known      map[string]bool
@@ -40,7 +45,25 @@ func newLockRig() *lockRig {
 func (r *lockRig) init(st ref.State, memSeed, ioSeed uint64, fill, ioFill int) {
 	r.ib.Reset(memSeed, ioSeed, fill, ioFill)
 	r.mb.Reset(memSeed, ioSeed, fill, ioFill)
-	r.cpu = z80.CPU{Memory: r.ib, IO: r.ib}
+	// half of the runs start from a brand-new CPU value, the others from a struct copy of the CPU value of the
+	// previous run with every exported field overwritten (a Step depends on the public state only)
+	if memSeed>>7&1 == 0 {
+		r.cpu = z80.CPU{}
+	} else {
+		r.cpu = r.prev
+		r.cpu.RETNHandler, r.cpu.RETIHandler, r.cpu.Interrupt, r.cpu.BreakPoints = nil, nil, nil, nil
+	}
+	r.cpu.Memory, r.cpu.IO = r.ib, r.ib
+	r.useDumb = memSeed>>8&31 == 5
+	if r.useDumb {
+		if r.dumb == nil {
+			r.dumb = make(z80.DumbMemory, 65536)
+		}
+		for a := 0; a < 65536; a++ {
+			r.dumb[a] = r.ib.Peek(uint16(a))
+		}
+		r.cpu.Memory = r.dumb
+	}
 	r.retn.n, r.reti.n, r.mRetN, r.mRetI = 0, 0, 0, 0
 	// which handlers are registered varies with the case (a RETN must not reach the RETI handler when
 	// no RETN handler is registered, and so on)
@@ -61,6 +84,9 @@ func (r *lockRig) init(st ref.State, memSeed, ioSeed uint64, fill, ioFill int) {
 func (r *lockRig) poke(a uint16, v uint8) {
 	r.ib.Poke(a, v)
 	r.mb.Poke(a, v)
+	if r.useDumb {
+		r.dumb[a] = v
+	}
 }
 
 // raise sets the same pending request on both sides.
@@ -206,7 +232,16 @@ func (r *lockRig) step() lockStep {
 			}
 		}
 		ds := eng.StateDiff(&got, &s, &o.pre, &in)
-		ds = append(ds, eng.LogDiff(r.ib, r.mb)...)
+		if r.useDumb {
+			for _, x := range r.mb.Log {
+				if (x.K == bus.Read || x.K == bus.Write) && r.dumb[x.Addr] != r.mb.Peek(x.Addr) {
+					ds = append(ds, eng.Disc{Kind: eng.KMemImg, Msg: fmt.Sprintf("mem[%04x]=%02x want %02x (on DumbMemory)", x.Addr, r.dumb[x.Addr], r.mb.Peek(x.Addr))})
+					break
+				}
+			}
+		} else {
+			ds = append(ds, eng.LogDiff(r.ib, r.mb)...)
+		}
 		wantN, wantI := r.mRetN, r.mRetI
 		if r.handlers&1 == 0 {
 			wantN += in.RetN
@@ -241,6 +276,7 @@ func (r *lockRig) step() lockStep {
 			o.variant, o.known = c.variant, c.known
 			r.afterEI = in.IsEI && !consumed
 			r.parked = in.IsHalt && !consumed
+			r.prev = r.cpu
 			return o
 		}
 		if ci == 0 {
